@@ -24,6 +24,7 @@ exe = executable('tool', files=['main.c'], libs=[lib], compile_options=['-DMSG="
 cp = copy_file('data/in put.txt')
 command('say', cmd=['echo', 'it is', '$HOME', exe], environment={'K': 'v w'})
 test([exe, '--x', 'y z'], environment={'T': '1 2'})
+test_deps(cp, gen)
 default(exe, cp)
 """
 PROJECT_C = """
@@ -42,6 +43,8 @@ final = build_step('final.txt', cmd=['cp', link, 'final.txt'])
 deep = copy_file('links/deep/d.txt', gen, mode='symlink')
 stamp = build_step('now.txt', cmd=['touch', 'now.txt'], always_outdated=True)
 pair = build_step(['p1.txt', 'p2.txt'], cmd=['touch', 'p1.txt', 'p2.txt'], always_outdated=True)
+table = build_step('table.txt', cmds=[['cp', source_file('table.in'), 'table.txt'], ['touch', 'table.txt']])
+vers = shared_library('vers', files=['s2.c'], version='1.2.3', soversion='1')
 test(t)
 """
 # what the script of PROJECT_C describes: {target: prerequisites} for the steps it declares itself (objects and
@@ -53,7 +56,8 @@ GRAPH_C = {
     'libfoo.a': {'libfoo.int/a.o'}, 't': {'t.int/main.o', 'libfoo.a'},
     'prog': {'prog.int/s.o', 'prog.int/main.o', 'libfoo.a'},
     'prog.int/main.o': {'{src}/main.c', '{src}/api.h', 'gen.h'}, 'prog.int/s.o': {'{src}/s.c', '{src}/api.h', 'gen.h'},
-    'all': {'prog', 'libfoo.a'},        # programs and libraries that are not test-only; steps are built on demand
+    'table.txt': {'{src}/table.in'},    # a file named in the first of two command lines
+    'all': {'prog', 'libfoo.a', 'libvers.so'},   # programs and libraries (by their public name) that are not test-only
     'tests': {'t'},
 }
 # an implicitly created precompiled header with explicitly passed (source and generated) headers; a program that needs
@@ -200,7 +204,7 @@ class CrossBackend(Bounded):
             for i in range(3):
                 w('lib/f%d.c' % i, 'int f%d(void) { return %d; }\n' % (i, i))
                 w('include/d%d/h%d.h' % (i, i), '')
-            for f in ('api.h', 'gen.h.in', 'tool.sh.in', 'data.txt', 'notes.txt', 'in.txt'):
+            for f in ('api.h', 'gen.h.in', 'tool.sh.in', 'data.txt', 'notes.txt', 'in.txt', 'table.in'):
                 w(f, '')
             for f in ('s.c', 's2.c', 's3.c', 'a.c', 'template.c'):
                 w(f, 'int fn_%s(void) { return 0; }\n' % f.replace('.', '_'))
